@@ -514,6 +514,84 @@ def rule_r6(ctx) -> List[R.Inst]:
     return insts
 
 
+def dispatch_chain(fn):
+    """(head `if` of the symbol dispatch chain, the loop body it sits in) of SMMap._read_notes"""
+    for n in ast.walk(fn.node):
+        if isinstance(n, ast.For):
+            for s_ in n.body:
+                if isinstance(s_, ast.If) and isinstance(s_.test, ast.Compare) and isinstance(s_.test.left, ast.Name) and \
+                        isinstance(s_.test.comparators[0], ast.Attribute) and unparse(s_.test.comparators[0].value).endswith("SMConst"):
+                    return s_, n.body
+    raise AnalysisError("SMMap._read_notes: symbol dispatch chain not found")
+
+
+def rule_r10(ctx) -> List[R.Inst]:
+    """every collected position is timed: the position -> ms table that the expanders look up (with .get, so a missing key is a
+    silent None) is built from every per-kind buffer that is later expanded"""
+    M = ctx.M
+    rid = "C02.R10"
+    fn = M.fn(READ_NOTES)
+    file = M.mods[fn.mod].rel
+    # the lookup table: NAME = {k: v for k, v in zip(KEYS, tm.offsets(KEYS))}
+    table = keys = None
+    for n in walk_no_nested(fn.node):
+        if isinstance(n, ast.Assign) and isinstance(n.targets[0], ast.Name) and isinstance(n.value, ast.DictComp):
+            it = n.value.generators[0].iter
+            if isinstance(it, ast.Call) and call_name_(it) == "zip" and len(it.args) == 2 and isinstance(it.args[0], ast.Name) and \
+                    isinstance(it.args[1], ast.Call) and call_name_(it.args[1]) == "offsets":
+                table, keys = n.targets[0].id, it.args[0].id
+    if table is None:
+        return [R.undec(rid, "position-table", file, fn.node.lineno, "position -> ms table not found")]
+    # consumers: arguments of the local functions that look the table up
+    lookers = {n.name for n in ast.walk(fn.node) if isinstance(n, ast.FunctionDef) and n is not fn.node and
+               any(isinstance(x, ast.Name) and x.id == table for x in ast.walk(n))}
+    cons = {}
+    for n in walk_no_nested(fn.node):
+        if isinstance(n, ast.Call) and isinstance(n.func, ast.Name) and n.func.id in lookers:
+            for a in n.args:
+                if isinstance(a, ast.Name):
+                    cons.setdefault(a.id, n)
+    if not cons:
+        return [R.undec(rid, "position-table", file, fn.node.lineno, "no expander call found")]
+    # producers.  The key collection may be renamed by `keys = list(keys)`
+    names = {keys}
+    covered = set()
+    # (a) in the reader loop: `keys.add(v)` placed after the dispatch chain, at the level of the chain
+    chain_if, body = dispatch_chain(fn)
+    for i, st in enumerate(body):
+        if isinstance(st, ast.Expr) and isinstance(st.value, ast.Call) and isinstance(st.value.func, ast.Attribute) and \
+                st.value.func.attr == "add" and isinstance(st.value.func.value, ast.Name) and st.value.func.value.id in names and \
+                st.value.args and isinstance(st.value.args[0], ast.Name):
+            v = st.value.args[0].id
+            if chain_if in body[:i]:
+                for x in ast.walk(chain_if):
+                    if isinstance(x, ast.Call) and isinstance(x.func, ast.Attribute) and x.func.attr == "append" and x.args and \
+                            isinstance(x.args[0], ast.Name) and x.args[0].id == v and isinstance(x.func.value, ast.Subscript) and \
+                            isinstance(x.func.value.value, ast.Name):
+                        covered.add(x.func.value.value.id)
+                    if isinstance(x, ast.Assign) and isinstance(x.targets[0], ast.Subscript) and any(
+                            isinstance(y, ast.Name) and y.id == v for y in ast.walk(x.value)):
+                        b = x.targets[0]
+                        while isinstance(b, ast.Subscript):
+                            b = b.value
+                        if isinstance(b, ast.Name):
+                            covered.add(b.id)
+    # (b) after the loop: `for S in (A, B, ...): ... keys.update(...)` / keys.update(A...)
+    for n in walk_no_nested(fn.node):
+        if isinstance(n, ast.For) and isinstance(n.iter, (ast.Tuple, ast.List)) and all(isinstance(e, ast.Name) for e in n.iter.elts):
+            if any(isinstance(x, ast.Call) and isinstance(x.func, ast.Attribute) and x.func.attr in ("update", "add") and
+                   isinstance(x.func.value, ast.Name) and x.func.value.id in names for x in ast.walk(n)):
+                covered |= {e.id for e in n.iter.elts}
+    missing = sorted(set(cons) - covered)
+    if missing:
+        c = cons[missing[0]]
+        return [R.viol(rid, "position-table", file, c.lineno,
+                       f"the buffer(s) {missing} are expanded through '{table}' but their positions are never put into '{keys}': "
+                       f"'{table}.get' returns None for them, so those objects are read with no time (NaN offset)",
+                       construct=f"{table} lacks {missing}")]
+    return [R.ok(rid, "position-table", file, fn.node.lineno, idiom=f"{sorted(cons)} all feed {keys}")]
+
+
 def rule_dep(ctx):
     """obligations inherited from shared code reached through the call graph (sa/props/deps.py)"""
     from .deps import dep_insts
@@ -530,6 +608,7 @@ SPECS = [
     RuleSpec("C02.R7", rule_r7, 2, "A5", "expanders number columns by the per-column buffer index"),
     RuleSpec("C02.R9", rule_r9, 4, "A7", "row position shapes: beat slice bounds, fraction inside the beat, Snap arguments"),
     RuleSpec("C02.R8", rule_r8, 6, "A3", "every chart gets its own list objects (fresh defaults per instance)"),
+    RuleSpec("C02.R10", rule_r10, 1, "A8", "every collected position is put into the position -> ms table the expanders look up"),
     RuleSpec("C02.D", rule_dep, 1, "M0", "rules of the shared code (timing engine, list classes, stacker) that the operations of this property reach"),
 ]
 
@@ -541,6 +620,6 @@ META = dict(
         "and header tag tables agree with the writer; notes are timed by the un-reseated timing map and the tempo list "
         "comes from the reseated one built from the same inputs starting at the #OFFSET field; every chart token is "
         "returned; and a None placeholder of the metadata reader must not reach a dereference (interprocedural "
-        "None-flow)."),
+        "None-flow). The position -> ms table the expanders look up (with .get, so a missing key is a silent None) is fed from every per-kind buffer that is later expanded (R10)."),
     not_decided="beat_str slicing, Fraction(snap, len) arithmetic, the ms integration (C10)",
 )
